@@ -30,6 +30,7 @@ class Opts:
         self.chani = 0
         self.both = False
         self.epipe = False           # an endpoint may stop receiving (send -> EPIPE) while it keeps sending
+        self.verbose = None          # verbosity both processes run at (10 + v: verbosity v, stderr gone); None = rotate
         self.__dict__.update(k)
 
 
@@ -46,10 +47,29 @@ def payload(rng, n, tag):
     return (base * (n // max(len(base), 1) + 1))[:n] if n else b''
 
 
+# Verbosity is a dimension of every scenario: the behaviour must not depend on it.  Scenarios that do not ask for a
+# particular level get one from this rotation (half of them run quiet); the check's seed shifts the rotation, so over
+# a few seeds every directed history has run at every level.  A replay carries its level in `cfg`.
+VERBS = [0, 0, 3, 0, 2, 0, 13, 1]
+_verb_state = [0]
+
+
+def set_verbosity_seed(seed):
+    _verb_state[0] = int(seed) % len(VERBS)
+
+
+def next_verbose():
+    v = VERBS[_verb_state[0] % len(VERBS)]
+    _verb_state[0] += 1
+    return v
+
+
 class Scenario:
     def __init__(self, rng, o):
         self.rng, self.o = rng, o
-        self.s = ts.Script(o.maxchan, o.bufsize, o.chani)
+        if getattr(o, 'verbose', None) is None:
+            o.verbose = next_verbose()
+        self.s = ts.Script(o.maxchan, o.bufsize, o.chani, verbose=getattr(o, 'verbose', 0))
         self.t = self.s.t
         self.faulty = set()      # flows that received an injected fault
         self.refused = set()     # (flow, endpoint) pairs whose endpoint stopped receiving (EPIPE): not a fault of the flow
@@ -389,6 +409,12 @@ def oracle_quiet(ctx, sc, prop):
                'measure %d -> %d' % (mu0, mu1))
         sc.mu_bad = []
         return False
+    left = t.unreleased() if hasattr(t, 'unreleased') else []
+    if left:
+        report(ctx, sc, '%s:teardown:socket-not-released' % prop, left[0][0], 'quiescence',
+               'once a flow\'s handler has been dropped nothing references its socket any more (the descriptor is closed, '
+               'the endpoint is not left hanging)', 'still referenced: %r' % (left[:4],))
+        return False
     if getattr(sc, 'idle_bad', None):
         at, end, n0, state = sc.idle_bad[0]
         report(ctx, sc, '%s:work:idle-pass-leaves-work' % prop, 0, 'pass of end %s ending at script line %d' % (end, at),
@@ -459,6 +485,15 @@ def oracle_no_pending(ctx, sc, prop):
 
 
 def oracle_alive(ctx, sc, prop, where):
+    out = getattr(sc.t, 'stdout_rec', None)
+    if out is not None and out.written:
+        # in the server process stdout IS the tunnel: anything but the Mux writing there lands between two frames
+        text = ''.join(str(x) for x in out.written)
+        report(ctx, sc, '%s:stream:diagnostics-written-to-stdout' % prop, 0, where,
+               'nothing but the Mux writes to the process\'s stdout, whatever the verbosity and whatever happened to stderr',
+               '%d bytes: %r' % (len(text), text[:120]))
+        out.written = []
+        return False
     if sc.t.died:
         report(ctx, sc, '%s:death:%s' % (prop, sc.t.died.split(':')[1].strip() if ':' in sc.t.died else 'exception'),
                0, where, 'client and server keep running', sc.t.died)
@@ -495,12 +530,28 @@ def decode_steps(enc):
     return [tuple(dec(st)) for st in enc]
 
 
+def replay_common(s):
+    """Verdicts every tunnel replay shares: a process that died, or diagnostics on stdout."""
+    out = getattr(s.t, 'stdout_rec', None)
+    if out is not None and out.written:
+        text = ''.join(str(x) for x in out.written)
+        return True, 'diagnostics written to stdout (the tunnel, in the server): %r' % text[:120]
+    if s.t.died:
+        return True, 'process died: %s' % s.t.died
+    s.t._reap()
+    left = s.t.unreleased()
+    if left:
+        return True, 'sockets of dropped handlers are still referenced (descriptors left open): %r' % (left[:4],)
+    return None
+
+
 def replay_work(case):
     """Re-run the recorded real-code steps through a Scenario, whose `do` holds every real pass of the loop to
     C02_bounded_work and C02_pass_without_progress_is_quiet; returns (still fails, what was seen)."""
     import random
     cfg = case['script'][0].split()
-    o = Opts(maxchan=int(cfg[1]), bufsize=int(cfg[2]), chani=int(cfg[3]))
+    cfgv = case.get('cfg') or []
+    o = Opts(maxchan=int(cfg[1]), bufsize=int(cfg[2]), chani=int(cfg[3]), verbose=(cfgv[4] if len(cfgv) > 4 else 0))
     sc = Scenario(random.Random(0), o)
     try:
         for st in decode_steps(case['steps']):
@@ -1031,13 +1082,16 @@ def replay_script(lines, steps=None):
     """Re-run a recorded scenario on the real code; returns the Scenario-like object.  With `steps` (the recorded
     real-code steps) the run is exact, select-loop rounds included; `lines` alone (older replay files) re-runs the
     model-level rendering, which has no rounds."""
+    verbose = 0
     if isinstance(lines, dict):
         steps = lines.get('steps')
+        cfgv = lines.get('cfg') or []
+        verbose = cfgv[4] if len(cfgv) > 4 else 0
         lines = lines['script']
     cfg = lines[0].split()
     maxchan, bufsize, chani = int(cfg[1]), int(cfg[2]), int(cfg[3])
     occ = [int(x) for x in cfg[4:]]
-    s = ts.Script(maxchan, bufsize, chani, occ)
+    s = ts.Script(maxchan, bufsize, chani, occ, verbose=verbose)
     wrote = {}
     if steps:
         for st in decode_steps(steps):
